@@ -104,7 +104,7 @@ impl Serialize for Mpi {
     fn to_writer<W: io::Write>(&self, w: &mut W) -> Result<()> {
         let bytes = &self.0;
         let size = bit_size(bytes);
-        w.write_u16::<BigEndian>(size as u16)?;
+        w.write_u16::<BigEndian>(size.try_into()?)?;
         w.write_all(bytes)?;
 
         Ok(())
